@@ -10,6 +10,10 @@
 //                    after dequeuing (entry of chronicler.Write) or after writing its batch; the hook events and the queue
 //                    length after every step are replayed by Conc/Buffer.v (trace acceptance)
 //                    and the model predicts the reloaded content;
+//       close in window  Close() of the instance (GracefulStop does not wait for a running flush)
+//                    inside the flush window, after Saves the running flush has not collected;
+//       delete window a Set / a second delete is acknowledged while a Delete or ShiftByKeys of the
+//                    last record(s) is parked at the begin / end of swamp.deleteHandler;
 //       teardown     a Set arrives while Destroy / auto-destroy / idle Close of the previous
 //                    instance is parked between the context cancel and the close callback
 //                    (close event arriving late), then another Set;
@@ -94,6 +98,12 @@ func (e *env) del(name string, k int) string {
 	return r.KeyStatuses[0].Status.String()
 }
 
+// shift removes the key through ShiftByKeys (CloneAndDeleteTreasuresByKeys); true = it was returned.
+func (e *env) shift(name string, k int) bool {
+	resp, err := e.srv.GW.ShiftByKeys(context.Background(), &hydrapb.ShiftByKeysRequest{IslandID: 1, SwampName: name, Keys: []string{key(k)}})
+	return err == nil && resp != nil && len(resp.Treasures) > 0
+}
+
 func (e *env) destroy(name string) {
 	e.srv.GW.Destroy(context.Background(), &hydrapb.DestroyRequest{IslandID: 1, SwampName: name})
 }
@@ -136,7 +146,9 @@ func (e *env) instID(name string) int64 {
 	return 0
 }
 
-const stepTO = 2 * time.Second
+// generous: every wait returns as soon as the thread has settled; the limit only matters on an
+// overloaded machine or for a real hang
+const stepTO = 15 * time.Second
 
 // runToEnd steps a thread through every park site until it finishes (false = it did not).
 func (e *env) runToEnd(tid int, timeout time.Duration) bool {
@@ -147,6 +159,26 @@ func (e *env) runToEnd(tid int, timeout time.Duration) bool {
 			return true
 		case lib.Parked:
 			e.ctl.StepThread(tid, 20*time.Millisecond)
+		}
+	}
+	return false
+}
+
+// runAllToEnd steps several threads through every park site until all have finished.
+func (e *env) runAllToEnd(tids []int, timeout time.Duration) bool {
+	deadline := time.Now().Add(timeout)
+	for time.Now().Before(deadline) {
+		done := 0
+		for _, t := range tids {
+			switch e.ctl.WaitThread(t, 2*time.Millisecond) {
+			case lib.Finished:
+				done++
+			case lib.Parked:
+				e.ctl.StepThread(t, 2*time.Millisecond)
+			}
+		}
+		if done == len(tids) {
+			return true
 		}
 	}
 	return false
@@ -202,7 +234,7 @@ func (e *env) witnessAutoDestroy(name string, wi int) caseRec {
 	e.ctl.Spawn(t2, func() { sst = e.set(name, 1, 2) })
 	fin := e.runToEnd(t2, stepTO)
 	c.script = append(c.script, fmt.Sprintf("set k1=2 finished=%v -> %s", fin, sst))
-	e.runToEnd(t1, 3*time.Second)
+	e.runToEnd(t1, stepTO)
 	c.script = append(c.script, "delete released -> "+dst)
 	if dst == "DELETED" {
 		c.acks = append(c.acks, ack{true, 0, 0})
@@ -275,11 +307,15 @@ func (e *env) witnessIdleClose(name string, wi int) caseRec {
 // ---- flush window: trace acceptance against Conc/Buffer.v ---------------------------------------
 
 type opSpec struct {
-	Del bool
-	K   int
+	Del   bool
+	K     int
+	Close bool // swamp.Close() on the instance (what GracefulStop does), not a request
 }
 
 func (o opSpec) String() string {
+	if o.Close {
+		return "Close()"
+	}
 	if o.Del {
 		return fmt.Sprintf("delete k%d", o.K)
 	}
@@ -297,6 +333,7 @@ func (e *env) flushWindow(name string, wi int, park string, ops, post []opSpec) 
 	}
 	var obj swamp.Swamp
 	var val int64
+	closed := false
 	mtid := 0 // model thread number
 	qlen := func() int {
 		if obj == nil {
@@ -366,6 +403,28 @@ func (e *env) flushWindow(name string, wi int, park string, ops, post []opSpec) 
 		tid := e.tid()
 		var st string
 		var v int64
+		if o.Close {
+			// the close-write is one more flusher of this instance; afterwards the instance is gone
+			c.bprogs = append(c.bprogs, "(Pb 3 0 0 0)")
+			target := obj
+			e.ctl.Spawn(tid, func() {
+				target.StopSendingInformation()
+				target.StopSendingEvents()
+				target.Close()
+			})
+			state := advance(tid)
+			if state == lib.Parked {
+				if !follow(tid, mt, "", false) {
+					c.hung = "Close did not finish"
+				}
+			} else if state != lib.Finished {
+				c.hung = "Close did not settle"
+			}
+			ob(mt, 4, 0)
+			closed = true
+			c.script = append(c.script, fmt.Sprintf("Close() of the instance, instance in map afterwards=%v", e.instID(name) != 0))
+			return
+		}
 		if o.Del {
 			c.bprogs = append(c.bprogs, fmt.Sprintf("(Pb 2 %d 0 0)", o.K))
 			e.ctl.Spawn(tid, func() { st = e.del(name, o.K) })
@@ -447,7 +506,7 @@ func (e *env) flushWindow(name string, wi int, park string, ops, post []opSpec) 
 			o := e.inst(name)
 			return o != nil && len(a) > 0 && verifhook.ID(o) == a[0]
 		}, ftid)
-		request(opSpec{false, 0}, true)
+		request(opSpec{K: 0}, true)
 		if obj == nil {
 			c.hung = "no instance"
 			return c
@@ -480,8 +539,21 @@ func (e *env) flushWindow(name string, wi int, park string, ops, post []opSpec) 
 			}
 		}()
 	}
-	for _, o := range post {
-		request(o, wi == 0)
+	if closed {
+		// the instance was closed inside the window: later requests get a new instance (not part of
+		// the buffer model of the closed one); one acknowledged Set on a fresh key
+		tid := e.tid()
+		var st string
+		e.ctl.Spawn(tid, func() { st = e.set(name, 7, 7000) })
+		if e.runToEnd(tid, stepTO) && okSet(st) {
+			c.acks = append(c.acks, ack{false, 7, 7000})
+		}
+		c.script = append(c.script, "set k7=7000 (after the close) -> "+st)
+		c.kind = "flush_window_close"
+	} else {
+		for _, o := range post {
+			request(o, wi == 0)
+		}
 	}
 	// delete + re-create of a key inside the window (known finding: the old record object is
 	// written after the new one)
@@ -557,10 +629,10 @@ func (e *env) teardown(name string, wi int, closer string, site string) caseRec 
 		// instance long enough for that instance to idle-close - that is the known race (ii).)
 		e.ctl.StepThread(tc, 20*time.Millisecond)
 	} else {
-		e.runToEnd(tc, 3*time.Second)
+		e.runAllToEnd([]int{tc, tw}, stepTO)
 	}
 	c.script = append(c.script, "teardown released "+dst)
-	fin := e.runToEnd(tw, 4*time.Second)
+	fin := e.runToEnd(tw, stepTO)
 	c.script = append(c.script, fmt.Sprintf("set k1=2 finished=%v -> %s", fin, sst))
 	if fin && okSet(sst) {
 		c.acks = append(c.acks, ack{false, 1, 2})
@@ -570,7 +642,84 @@ func (e *env) teardown(name string, wi int, closer string, site string) caseRec 
 	}
 	var s3 string
 	e.ctl.Spawn(t3, func() { s3 = e.set(name, 2, 3) })
-	if e.runToEnd(t3, 4*time.Second) && okSet(s3) {
+	if e.runToEnd(t3, stepTO) && okSet(s3) {
+		c.acks = append(c.acks, ack{false, 2, 3})
+	}
+	c.script = append(c.script, "set k2=3 -> "+s3)
+	return c
+}
+
+// ---- delete window: requests acknowledged while a delete of the last record(s) is inside deleteHandler ----
+
+// via: "delete" (gateway.Delete -> DeleteTreasure) or "shift" (ShiftByKeys -> CloneAndDeleteTreasuresByKeys);
+// site: the deleter is parked at the begin or at the end of swamp.deleteHandler;
+// double: the swamp holds two records and a second request deletes the other one meanwhile (both
+// deletes see the swamp become empty), otherwise one record and a Set of a new key meanwhile.
+func (e *env) deleteWindow(name string, wi int, via, site string, double bool) caseRec {
+	c := caseRec{kind: "delete_window", name: name, wi: wi, nontriv: true}
+	remove := func(k int) bool {
+		if via == "shift" {
+			return e.shift(name, k)
+		}
+		return e.del(name, k) == "DELETED"
+	}
+	t0 := e.tid()
+	e.ctl.Spawn(t0, func() {
+		e.set(name, 0, 1)
+		if double {
+			e.set(name, 1, 2)
+		}
+	})
+	e.runToEnd(t0, stepTO)
+	c.acks = append(c.acks, ack{false, 0, 1})
+	if double {
+		c.acks = append(c.acks, ack{false, 1, 2})
+	}
+	td, tw := e.tid(), e.tid()
+	var d1 bool
+	e.ctl.Spawn(td, func() { d1 = remove(0) })
+	parked := e.runUntil(td, site, stepTO)
+	c.script = append(c.script, fmt.Sprintf("%s k0 parked at %s=%v", via, site, parked))
+	var sst string
+	var d2 bool
+	if double {
+		e.ctl.Spawn(tw, func() { d2 = remove(1) })
+	} else {
+		e.ctl.Spawn(tw, func() { sst = e.set(name, 1, 2) })
+	}
+	// the second request runs as far as it can (a second delete that empties the swamp waits in
+	// Destroy for the vigil of the first)
+	fin := false
+	deadline := time.Now().Add(300 * time.Millisecond)
+	for time.Now().Before(deadline) && !fin {
+		st := e.ctl.WaitThread(tw, 5*time.Millisecond)
+		if st == lib.Parked {
+			e.ctl.StepThread(tw, 5*time.Millisecond)
+		}
+		fin = st == lib.Finished
+	}
+	c.script = append(c.script, fmt.Sprintf("second request finished inside the window=%v", fin))
+	// both requests are released together: either may have to wait for the other one's vigil
+	if !e.runAllToEnd([]int{td, tw}, stepTO) {
+		c.hung = "the two requests did not finish"
+	}
+	if c.hung != "" {
+		return c
+	}
+	c.script = append(c.script, fmt.Sprintf("first %s -> %v, second -> %v %s", via, d1, d2, sst))
+	if d1 {
+		c.acks = append(c.acks, ack{true, 0, 0})
+	}
+	if double && d2 {
+		c.acks = append(c.acks, ack{true, 1, 0})
+	}
+	if !double && okSet(sst) {
+		c.acks = append(c.acks, ack{false, 1, 2})
+	}
+	t3 := e.tid()
+	var s3 string
+	e.ctl.Spawn(t3, func() { s3 = e.set(name, 2, 3) })
+	if e.runToEnd(t3, stepTO) && okSet(s3) {
 		c.acks = append(c.acks, ack{false, 2, 3})
 	}
 	c.script = append(c.script, "set k2=3 -> "+s3)
@@ -761,7 +910,8 @@ func main() {
 	// ---- phase 1: forced scenarios, all in parallel under one controller
 	e.ctl = lib.New()
 	for _, s := range []string{"swamp.autodestroy", "swamp.idle.read", "gateway.set.summoned", "swamp.flush.begin",
-		"chronicler.write.begin", "swamp.flush.wrote", "swamp.destroy.cancelled", "swamp.callback"} {
+		"chronicler.write.begin", "swamp.flush.wrote", "swamp.destroy.cancelled", "swamp.callback",
+		"swamp.deletehandler.begin", "swamp.deletehandler.end"} {
 		e.ctl.Park[s] = true
 	}
 	e.ctl.Keep = func(site string) bool { return !strings.HasPrefix(site, "summon.") }
@@ -773,15 +923,15 @@ func main() {
 		scen = append(scen, func() caseRec { return e.witnessIdleClose(fmt.Sprintf("%s/w/ii%d", pat(wi, true), wi), wi) })
 	}
 	opsets := [][]opSpec{
-		{{false, 0}},                         // update of the key that is being flushed
-		{{false, 1}},                         // another key
-		{{false, 0}, {false, 0}},             // two updates
-		{{false, 1}, {true, 0}},              // delete of the key that is being flushed
-		{{false, 1}, {true, 1}},              // insert and delete inside the window
-		{{false, 0}, {false, 1}, {false, 0}}, // interleaved
-		{{false, 1}, {true, 0}, {false, 0}},  // delete and re-create inside the window
+		{{Del: false, K: 0}},                         // update of the key that is being flushed
+		{{Del: false, K: 1}},                         // another key
+		{{Del: false, K: 0}, {Del: false, K: 0}},             // two updates
+		{{Del: false, K: 1}, {Del: true, K: 0}},              // delete of the key that is being flushed
+		{{Del: false, K: 1}, {Del: true, K: 1}},              // insert and delete inside the window
+		{{Del: false, K: 0}, {Del: false, K: 1}, {Del: false, K: 0}}, // interleaved
+		{{Del: false, K: 1}, {Del: true, K: 0}, {Del: false, K: 0}},  // delete and re-create inside the window
 	}
-	posts := [][]opSpec{nil, {{false, 2}}, {{false, 0}}}
+	posts := [][]opSpec{nil, {{Del: false, K: 2}}, {{Del: false, K: 0}}}
 	n := 0
 	for wi := 0; wi <= 1; wi++ {
 		for _, park := range []string{"swamp.flush.begin", "chronicler.write.begin", "swamp.flush.wrote"} {
@@ -791,6 +941,36 @@ func main() {
 				nm := fmt.Sprintf("%s/f/n%d", pat(wi, false), n)
 				n++
 				scen = append(scen, func() caseRec { return e.flushWindow(nm, wi, park, ops, post) })
+			}
+		}
+	}
+	// a Close() of the instance (what GracefulStop does, it does not wait for a running flush)
+	// inside the flush window, after a Save that the running flush has not collected
+	closesets := [][]opSpec{
+		{{Close: true}},
+		{{K: 1}, {Close: true}},
+		{{K: 0}, {Close: true}},
+		{{K: 1}, {Del: true, K: 1}, {K: 2}, {Close: true}},
+	}
+	for wi := 0; wi <= 1; wi++ {
+		for _, park := range []string{"swamp.flush.begin", "chronicler.write.begin", "swamp.flush.wrote"} {
+			for _, ops := range closesets {
+				wi, park, ops := wi, park, ops
+				nm := fmt.Sprintf("%s/fc/n%d", pat(wi, false), n)
+				n++
+				scen = append(scen, func() caseRec { return e.flushWindow(nm, wi, park, ops, nil) })
+			}
+		}
+	}
+	for wi := 0; wi <= 1; wi++ {
+		for _, via := range []string{"delete", "shift"} {
+			for _, site := range []string{"swamp.deletehandler.begin", "swamp.deletehandler.end"} {
+				for _, double := range []bool{false, true} {
+					wi, via, site, double := wi, via, site, double
+					nm := fmt.Sprintf("%s/d/n%d", pat(wi, false), n)
+					n++
+					scen = append(scen, func() caseRec { return e.deleteWindow(nm, wi, via, site, double) })
+				}
 			}
 		}
 	}
@@ -809,7 +989,7 @@ func main() {
 		scen = append(scen, func() caseRec { return e.teardown(nm, wi, "idleclose", "swamp.callback") })
 	}
 	forced := make([]caseRec, len(scen))
-	common.Parallel(len(scen), len(scen), func(i int) { forced[i] = scen[i]() })
+	common.Parallel(len(scen), 40, func(i int) { forced[i] = scen[i]() })
 	e.ctl.Uninstall()
 	time.Sleep(50 * time.Millisecond)
 
